@@ -77,12 +77,15 @@ class Opaque(T):
 
 class Callback(T):
     """Opaque callable; `effect(ghost, *args)` is ghost code run at each call;
-    `returns` a type for the result (default None)."""
+    `returns` a type for the result (default None); `raises` exception classes
+    the ghost effect may raise into the calling code."""
 
-    def __init__(self, name, effect=None, returns=None):
+    def __init__(self, name, effect=None, returns=None, raises=(), is_async=False):
         self.name = name
         self.effect = effect
         self.returns = returns
+        self.raises = tuple(raises)
+        self.is_async = is_async
 
 
 class ListOf(T):
@@ -203,8 +206,8 @@ class Registry:
         return m
 
     def contract(self, target, **kw):
+        key = kw.pop('key', None) or target
         c = Contract(target, **kw)
-        key = kw.get('key') or target
         c.key = key
         self.contracts[key] = c
         if c.prop:
@@ -256,6 +259,12 @@ def as_bytes(x):
 
 def isnone(x):
     return x is None
+
+
+def at(seq, i):
+    """element i of a sequence, total: 0 outside the bounds natively, an
+    unspecified value symbolically (clauses must guard the index)"""
+    return seq[i] if 0 <= i < len(seq) else 0
 
 
 def fresh_int():
